@@ -303,6 +303,7 @@ def runOp (st : MState) (op : Json) : E (MState × Json) := do
     | (h', .error e) => return finishErr { st with heap := h' } (errJ e)
   | [.str "l.new", lid, chain, .str conv] => do
     let lid ← getNatJ lid
+    let st := { st with views := st.views.filter (·.1 != lid) }     -- the old view is dropped first
     let (data, p) ← resolveChain st chain
     match data with
     | .error e => return finishErr st (errJ e)
